@@ -214,3 +214,23 @@ func init() {
 		})
 	})
 }
+
+func init() {
+	register("C18", func(r *Run) error {
+		return runB(r, &BSpec{
+			ID: "C18", Race: true, Grammars: [2]int{40, 400}, Cases: [2]int{50, 120},
+			Gen: func(r *Run, i int, seed int) *gspec.Grammar {
+				switch i % 4 {
+				case 0, 1:
+					return gspec.GrammarGen(gspec.Profile("stateful")).Example(seed)
+				case 2:
+					return gspec.GrammarGen(gspec.Profile("memo")).Example(seed)
+				}
+				return gspec.LRGrammarGen(true).Example(seed)
+			},
+			Variants: plainAndOptimized,
+			Rule:     "stateful, memoizing and left-recursive grammars, parsers built with the race detector (-race, GORACE=halt_on_error=1); rapid draws per case 2-32 jobs (entry, input, Memoize/Statistics, InitState seeds incl. a Cloner list, plan) and GOMAXPROCS in {2,4,16}; every job is first run alone, then all jobs are started together from a barrier; oracle: each concurrent result (value, error text, complete code-block trace incl. state and globalStore snapshots) equals the result of the same job run alone, and the race detector stays silent (any report is a violation). Non-trivial = a case in which the execution windows of at least two jobs overlapped (measured).",
+			Assumptions: append([]string{"interleavings are sampled by stress under the race detector, not enumerated: a race that needs a rare schedule can be missed"}, commonAssumptions...),
+		})
+	})
+}
